@@ -1,0 +1,53 @@
+//go:build verif
+
+package chain
+
+// Machine-checked contracts for /verif/govc (contract-based deductive verification).
+// This file contains comments only; it is compiled only with -tags verif and adds no code.
+
+// ---------------------------------------------------------------- magic block lookup (C40)
+
+// The storage behind Chain.MagicBlockStorage is an interface; within one lookup it is not
+// modified, so Get/GetLatest are modelled as functions of (storage, round). The implementation
+// (*roundStartingStorage) is verified separately in package round.
+//@ uf rs_get (Iface Int) Iface
+//@ uf rs_latest (Iface) Iface
+
+//@ iface 0chain.net/chaincore/round.RoundStorage.Get
+//@   prop C40
+//@   pure
+//@   ensures result == rs_get(self, round)
+
+//@ iface 0chain.net/chaincore/round.RoundStorage.GetLatest
+//@   prop C40
+//@   pure
+//@   ensures result == rs_latest(self)
+
+//@ func mbRoundOffset
+//@   prop C40
+//@   requires rn >= 0
+//@   ensures rn <= ViewChangeOffset ==> result == rn
+//@   ensures rn > ViewChangeOffset ==> result == rn - ViewChangeOffset
+//@   ensures result >= 0 && result <= rn
+//@   modifies nothing
+
+//@ spec mbOff(r int64) int64 = (r <= ViewChangeOffset ? r : r - ViewChangeOffset)
+//@ spec mbEntity(c *Chain, r int64) bool = true
+
+// GetMagicBlock(round): the entity stored for the greatest starting round <= round - offset,
+// else the latest one; never nil (the nil case panics).
+//@ func (*Chain).GetMagicBlock
+//@   prop C40
+//@   requires c != nil && round >= 0 && rheld(c.mbMutex) == 0
+//@   ensures rs_get(c.MagicBlockStorage, mbOff(round)) != nil ==> result == payload(rs_get(c.MagicBlockStorage, mbOff(round)))
+//@   ensures rs_get(c.MagicBlockStorage, mbOff(round)) == nil ==> result == payload(rs_latest(c.MagicBlockStorage)) && rs_latest(c.MagicBlockStorage) != nil
+//@   modifies c.mbMutex
+//@   lock-balanced c.mbMutex
+
+//@ func (*Chain).GetMagicBlockNoOffset
+//@   prop C40
+//@   requires c != nil && rheld(c.mbMutex) == 0
+//@   ensures rs_get(c.MagicBlockStorage, round) != nil ==> result == payload(rs_get(c.MagicBlockStorage, round))
+//@   ensures rs_get(c.MagicBlockStorage, round) == nil ==> result == payload(rs_latest(c.MagicBlockStorage)) && rs_latest(c.MagicBlockStorage) != nil
+//@   modifies c.mbMutex
+//@   lock-balanced c.mbMutex
